@@ -180,6 +180,13 @@ def run(ck):
     mraw = vlib.read_ndjson(mpath)
     for c in pick(mraw, 150 if q else 1500):
         cases.append({"id": len(cases), "kind": "mini", "hist": c["hist"], "expected": expected_of(c, mini=True)})
+    # "supplying more values than a stack's maximum is reported as an overflow error" also when the maximum
+    # is the largest there is and the supplied sequence announces an astronomical length
+    for kind in ("push", "alt", "mini"):
+        hist = [{"k": "max_all", "s": "", "n": "MAX", "xs": [], "name": ""},
+                {"k": "values", "s": "a", "n": 0, "xs": [7], "name": ""},
+                {"k": "values_huge", "s": "a", "n": 0, "xs": [], "name": ""}]
+        cases.append({"id": len(cases), "kind": kind, "hist": hist, "expected": {"status": "overflow", "at": 3}})
     n = run_well_typed(ck, cases)
     rows = []
     for kind in ("push", "alt"):
